@@ -69,7 +69,8 @@ Record st := mkSt {
   loop_dead : bool;              (* the processor loop has ended for good *)
   closed : bool;                 (* b.closed / closeCh closed *)
   cl : closepc;
-  pend_subs : list (Z * bool);   (* Subscribe calls waiting for the lock: call id, prompt consumer *)
+  pend_subs : list (Z * (bool * bool)); (* Subscribe calls waiting for the lock: call id, (prompt
+                                    consumer, the context passed has already ended) *)
   (* ghost *)
   fanout : list val;             (* values for which execute started to fan out, in order *)
   hist : list (key * val * Z);   (* accepted Batch calls: key, value, time of the call *)
@@ -111,7 +112,7 @@ Definition set_closed (s : st) (x : bool) : st :=
 Definition set_cl (s : st) (x : closepc) : st :=
   mkSt (subs s) (lock s) (proc s) (pending s) (now s) (qstopped s) (loop_dead s) (closed s) x
        (pend_subs s) (fanout s) (hist s) (fired s) (cl2 s).
-Definition set_pend_subs (s : st) (x : list (Z * bool)) : st :=
+Definition set_pend_subs (s : st) (x : list (Z * (bool * bool))) : st :=
   mkSt (subs s) (lock s) (proc s) (pending s) (now s) (qstopped s) (loop_dead s) (closed s) (cl s)
        x (fanout s) (hist s) (fired s) (cl2 s).
 Definition set_fanout (s : st) (x : list val) : st :=
@@ -167,6 +168,12 @@ Definition new_sub (p : bool) (st0 : nat) : sub :=
 Definition dropped_sub (p : bool) (st0 : nat) : sub :=
   mkSub p 0 [] Exited false false false false false [] false st0 false.
 
+(* what Subscribe registers under the lock: nothing (silently dropped) once the batcher is closed;
+   otherwise a subscriber with its forwarder — ALSO when the context passed has already ended (the
+   forwarder then sees ctx.Done() at its first select, deregisters and closes the channel) *)
+Definition mk_sub (is_closed : bool) (pc : bool * bool) (st0 : nat) : sub :=
+  if is_closed then dropped_sub (fst pc) st0 else sb_ctx_done (new_sub (fst pc) st0) (snd pc).
+
 Fixpoint upd_nth {A} (i : nat) (x : A) (l : list A) : list A :=
   match l, i with
   | [], _ => []
@@ -196,7 +203,8 @@ Inductive ev :=
 (* environment: API calls being issued, the clock, the subscribers' contexts and consumers *)
 | Batch (k : key) (v : val)
 | Advance (d : Z)
-| SubscribeCall (id : Z) (p : bool)
+| SubscribeCall (id : Z) (p : bool) (c : bool)  (* c: with a context that has ALREADY ended *)
+| CancelPending (j : nat)   (* the context of a Subscribe call still waiting for the lock ends *)
 | Cancel (i : nat)
 | Want (i : nat)
 | WantAll (i : nat)
@@ -215,7 +223,8 @@ Inductive ev :=
 
 Definition internal (e : ev) : bool :=
   match e with
-  | Batch _ _ | Advance _ | SubscribeCall _ _ | Cancel _ | Want _ | WantAll _ | CloseCall
+  | Batch _ _ | Advance _ | SubscribeCall _ _ _ | CancelPending _ | Cancel _ | Want _ | WantAll _
+  | CloseCall
   | Close2Call _ => false
   | _ => true
   end.
@@ -243,7 +252,12 @@ Definition step (vr : variant) (iv : Z) (s : st) (e : ev) : option st :=
       else Some (set_hist (set_pending s (pupsert k (v, (now s + iv)%Z, length (hist s)) (pending s)))
                           (hist s ++ [(k, v, now s)]))
   | Advance d => if (d <? 0)%Z then None else Some (set_now s (now s + d)%Z)
-  | SubscribeCall id p => Some (set_pend_subs s (pend_subs s ++ [(id, p)]))
+  | SubscribeCall id p c => Some (set_pend_subs s (pend_subs s ++ [(id, (p, c))]))
+  | CancelPending j =>
+      match nth_error (pend_subs s) j with
+      | Some (id, (p, _)) => Some (set_pend_subs s (upd_nth j (id, (p, true)) (pend_subs s)))
+      | None => None
+      end
   | Cancel i => with_sub s i (fun b => Some (sb_ctx_done b true))
   | Want i => with_sub s i (fun b => Some (sb_wants b (S (wants b))))
   | WantAll i => with_sub s i (fun b => Some (sb_prompt b true))
@@ -374,10 +388,9 @@ Definition step (vr : variant) (iv : Z) (s : st) (e : ev) : option st :=
   (* Subscribe under the lock: dropped silently when closed, else appended with its forwarder *)
   | SubscribeLocked j =>
       match lock s, nth_error (pend_subs s) j with
-      | Free, Some (_, p) =>
+      | Free, Some (_, pc) =>
           Some (set_subs (set_pend_subs s (remove_nth j (pend_subs s)))
-                         (subs s ++ [if closed s then dropped_sub p (length (fanout s))
-                                     else new_sub p (length (fanout s))]))
+                         (subs s ++ [mk_sub (closed s) pc (length (fanout s))]))
       | _, _ => None
       end
   (* queue.Close returns once the loop has ended; the loop cannot end inside a callback *)
